@@ -73,7 +73,7 @@ CHECKS["C13"] = ("kv", "exploration",
     "a real tree at the start root, hash to the end root. A follower on the other backend applies the served log or a generated corruption through RootCache.Apply; the "
     "reference model decides whether it must succeed (root present, contents equal) or fail (root absent, version's roots unchanged). One defect (two-hop order) was "
     "found and repaired; its shrunk case runs as a regression.",
-    "A GetWriteLog error means 'not served' (counted per error text), not a violation; write logs are not discarded; the follower finalizes after each successful apply.",
+    "A GetWriteLog error means 'not served' (counted per error text), not a violation; write logs are not discarded; the follower finalizes after each successful apply. A third of the versions get a competing candidate root committed first, so write logs of pending roots with a non-zero sequence number are requested too.",
     "DESIGN.md 4/C13")
 CHECKS["C18"] = ("pure", "exploration",
     "metamorphic mutation of known-good quote/collateral vectors + independent time/policy model (rapid) + exhaustive single-bit enumeration",
@@ -92,7 +92,7 @@ CHECKS["C04"] = ("kv", "exploration",
     "spliced from a tree differing in one key) are each either rejected or, for every universe key, yield 'undetermined' or the truth; a foreign tree's proof never verifies. A reader holding only "
     "the trusted root reads through a scripted adversarial peer (errors, mutated proofs, answers of another tree) and must return the replica's answers or an error, and recover once the peer is honest.",
     "Trees at most 128 nodes deep (documented maxProofDepth). Remote readers with a node cache smaller than the tree give wrong answers even with an honest peer: recorded as a known finding with a "
-    "deterministic probe; such capacities are excluded from the generator while it is listed as known.",
+    "deterministic probe; such capacities are excluded from the generator while it is listed as known. Mutants are also built on the stored (non-compact) re-encoding of internal nodes, and the adversarial peer may answer with a valid root-anchored proof of another question.",
     "DESIGN.md 4/C04")
 
 CHECKS["C19"] = ("pure", "exploration",
@@ -128,7 +128,7 @@ CHECKS["C10"] = ("chain", "exploration",
     "participation, total slashing, depleted pools, coinciding epoch events) in two modes per block: an HONEST proposer whose mempool is what passed CheckTx must always obtain a proposal that every replica accepts; "
     "a BYZANTINE proposer includes everything and may inject transactions behind its own PrepareProposal. Accepted blocks must execute without panic on the process and the replay path with identical AppHash; "
     "a rejected Byzantine block must also be unexecutable on the replay path; validator updates must satisfy the engine's contract.",
-    "The documented precondition (a validator can still be elected) is kept by an anchor validator entity and recognised by its error text otherwise (counted discard). No runtime transactions yet.",
+    "The documented precondition (a validator can still be elected) is kept by an anchor validator entity and recognised by its error text otherwise (counted discard). No runtime transactions yet. The traffic mix includes the registry generator of C17 and the debonding profile of C15.",
     "DESIGN.md 4/C10")
 CHECKS["C08"] = ("chain", "exploration",
     "exact working-state diff of single probe transactions against an independent authentication predicate (rapid)",
@@ -136,7 +136,7 @@ CHECKS["C08"] = ("chain", "exploration",
     "and the complete working state is diffed against the same block without them. A failing transaction that an independent predicate (stdlib ed25519, nonce, balance, reserved/system/oversized) rejects at "
     "authentication must leave an EMPTY diff; one that passes authentication may only change the signer's nonce (+1) and balance (-fee) and the fee sinks, summing exactly to the fee. CheckTx / EstimateGas of all "
     "candidates leave the committed state in the node database byte-identical and the prober's AppHash equals a clean twin's at every height.",
-    "Probe blocks contain exactly one transaction; signers whose account the empty block itself changes are skipped (counted). Events are not consensus state.",
+    "Probe blocks contain exactly one transaction; signers whose account the empty block itself changes are skipped (counted). Events are not consensus state. Vault traffic (vaults with balances and withdraw policies from genesis, state-aware vault actions, withdrawals through the vault's withdraw hook) and node updates that change roles are part of the candidate transactions.",
     "DESIGN.md 4/C08")
 
 CHECKS["C09"] = ("chain", "exploration",
@@ -145,7 +145,7 @@ CHECKS["C09"] = ("chain", "exploration",
     "bit flips anywhere, envelope re-encodings, other key over the same blob, signatures under every other registered signature context (listed through a verif hook), other chain context, no chain separation, raw "
     "blob, zero signature, re-signed nonce variants, replay inside one block, replay in later blocks and after restarts of the disk-backed replica. A byte string may change state only if stdlib ed25519 verifies it "
     "over the harness-computed digest for this chain and its nonce is current; each effect advances exactly that signer's nonce by one; effective altered encodings must decode to the identical statement.",
-    "Effects are observed through single-transaction probe blocks; multi-transaction blocks are covered by the nonce/fee reasoning of C08 and the supply invariants of C05.",
+    "Effects are observed through single-transaction probe blocks; multi-transaction blocks are covered by the nonce/fee reasoning of C08 and the supply invariants of C05. Signatures by the 14 encodings of small-order points (with small-order R, S=0) are generated as well; the harness's authenticity predicate rejects them with an independent math/big curve implementation.",
     "DESIGN.md 4/C09")
 CHECKS["C07"] = ("kv", "fault_enumeration",
     "exhaustive crash-point enumeration per generated history with child processes killed at verif-tagged crash markers",
@@ -170,7 +170,7 @@ CHECKS["C14"] = ("chain", "exploration",
     "re-registration. For every epoch-transition block the state right after BeginBlock is captured and, after the commit, every elected validator and committee member is checked to be registered, unexpired, "
     "unfrozen, carrying the role / runtime version and covered by its entity's stake; limits, stake order, voting power = VotingPowerFromStake and its monotonicity, exact committee sizes and 'validator "
     "updates turn the previous set into the elected one' (against the consensus-engine model) are verified; a second replica must agree on the AppHash.",
-    "Insecure beacon backend only (VRF eligibility not driven); elections triggered by slashing inside an epoch are executed but only epoch-transition elections are evaluated.",
+    "Insecure beacon backend only (VRF eligibility not driven); elections triggered by slashing inside an epoch are executed but only epoch-transition elections are evaluated. Runtime scheduling constraints are generated (per-entity MaxNodes, MinPoolSize above the group size, validator-set membership) and checked: candidate pool after the per-entity cap >= MinPoolSize for every existing committee, members per entity <= MaxNodes.",
     "DESIGN.md 4/C14")
 
 CHECKS["C17"] = ("chain", "exploration",
@@ -180,7 +180,7 @@ CHECKS["C17"] = ("chain", "exploration",
     "single descriptor signature missing or foreign, node not listed, non-governing entity). Every unauthorized variant must fail; after every block all key-to-node indexes, raw index sizes, entity/node/runtime "
     "ownership relations and every account's stake claims with thresholds are recomputed from the primary records. One defect (key exchange between roles loses a key-map entry) was found and repaired; its "
     "shrunk reproduction runs as a regression.",
-    "Authority defects are known to the generator by construction; that failing transactions change nothing else is C08's result. Consensus keys and the anchor validator's keys are not rotated.",
+    "Authority defects are known to the generator by construction; that failing transactions change nothing else is C08's result. Consensus keys and the anchor validator's keys are not rotated. Generated registry traffic includes role changes, abandoned/expired nodes, foreign listings, nodes naming another owning entity (migrations) and runtime hand-over to runtime governance.",
     "DESIGN.md 4/C17")
 CHECKS["C06"] = ("kv", "exploration",
     "model-based stateful property testing of version histories on both node databases + backend differential (+ race-detector stress in thorough)",
@@ -199,7 +199,7 @@ CHECKS["C16"] = ("bytes", "exploration",
     "valid encodings and hostile constants. Inside each target: no panic, bounded time and allocation (re-run 3x before it counts), decode->encode->decode consistency, depth/policy markers, and an identical "
     "result for a known-good input afterwards. The thorough tier adds native Go fuzzing (coverage instrumented) of 7 grouped targets. One accepted-but-inconsistent decoding (namespace in array form) was found, "
     "shown to halt the chain on the live multiplexer, and repaired.",
-    "Inputs up to 64 KiB; time/memory limits are thresholds, not proofs. The live multiplexer's CheckTx/DeliverTx with arbitrary bytes is exercised by C10's hostile generator instead.",
+    "Inputs up to 64 KiB; time/memory limits are thresholds, not proofs. The live multiplexer's CheckTx/DeliverTx with arbitrary bytes is exercised by C10's hostile generator instead. Accepted mkvs nodes are additionally checked for well-formedness (label length vs declared bit length, bit access at the last position).",
     "DESIGN.md 3.3, 4/C16")
 
 NOT_APPLICABLE = {
